@@ -191,7 +191,8 @@ struct DirRes
 };
 struct Oracle
 {
-  std::vector<DirRes> dirs;
+  std::vector<DirRes> dirs;  // covariances: library convention for heterotopic data (see cov:hetero-pairs)
+  std::vector<DirRes> dirsN; // covariances: plain definition (identical to dirs for every other calculation)
   bool margin = false;
   bool heteroDiffers = false; // covariances: plain definition and library convention differ
 };
@@ -318,7 +319,7 @@ static Oracle oraclePoints(const Data& D, const std::vector<DirC>& dirs, int cal
   for (const DirC& dc : dirs)
   {
     int nlt = asym ? 2 * dc.npas + 1 : dc.npas;
-    Acc A(D.nvar, nlt);
+    Acc A(D.nvar, nlt), AN(D.nvar, nlt);
     forPairs(D, dc, asym, O.margin, [&](int f, int t, int lag, double d) {
       LD ww = (LD)D.W(f) * (LD)D.W(t);
       for (int iv = 0; iv < D.nvar; iv++)
@@ -336,8 +337,8 @@ static Oracle oraclePoints(const Data& D, const std::vector<DirC>& dirs, int cal
             // C_ij(+h) = mean of z_i(x) z_j(x+h), i the variable of larger rank; C_ij(-h) the mirror
             int sp = dc.npas + 1 + lag, sm = dc.npas - 1 - lag;
             bool both_i = !isNA(zif) && !isNA(zit);
-            if (!isNA(zif) && !isNA(zjt)) A.swN[(size_t)(r * nlt + sp)] += ww;
-            if (!isNA(zit) && !isNA(zjf)) A.swN[(size_t)(r * nlt + sm)] += ww;
+            if (!isNA(zif) && !isNA(zjt)) { A.swN[(size_t)(r * nlt + sp)] += ww; AN.add(r, sp, ww, d, (LD)zif * zjt); }
+            if (!isNA(zit) && !isNA(zjf)) { A.swN[(size_t)(r * nlt + sm)] += ww; AN.add(r, sm, ww, d, (LD)zit * zjf); }
             // library convention: variable i must be known at both ends (see report, cov:hetero-pairs)
             if (!both_i) continue;
             if (!isNA(zjt)) A.add(r, sp, ww, d, (LD)zif * zjt);
@@ -346,6 +347,8 @@ static Oracle oraclePoints(const Data& D, const std::vector<DirC>& dirs, int cal
         }
     });
     O.dirs.push_back(finish(D, calc, dc.npas, A));
+    if (asym) { AN.swN = AN.sw; O.dirsN.push_back(finish(D, calc, dc.npas, AN)); }
+    else O.dirsN.push_back(O.dirs.back());
     const DirRes& R = O.dirs.back();
     for (size_t k = 0; k < R.sw.size(); k++)
       if (R.swN[k] != R.sw[k] && R.sw[k] >= 0) O.heteroDiffers = true;
@@ -458,6 +461,30 @@ static bool cmpDir(Ctx& ctx, const Vario& v, int idir, const DirRes& R, int nvar
         }
       }
     }
+  return true;
+}
+
+// Compare all directions with the pairwise definition.  For covariances of heterotopic data the plain definition
+// is tried first; when only the library's present convention matches, the recorded finding cov:hetero-pairs is
+// reported; anything else is reported under the ordinary key.
+static bool cmpAll(Ctx& ctx, const Vario& v, const Oracle& O, int nvar, const std::string& key, const std::string& what)
+{
+  int ndir = (int)O.dirs.size();
+  if (O.heteroDiffers)
+  {
+    Ctx tmp;
+    bool okN = true;
+    for (int d = 0; d < ndir && okN; d++) okN = cmpDir(tmp, v, d, O.dirsN[(size_t)d], nvar, key, what);
+    if (okN) { ctx.label("cov:hetero-plain-definition-holds"); return true; }
+    for (int d = 0; d < ndir; d++)
+      if (!cmpDir(ctx, v, d, O.dirs[(size_t)d], nvar, key, what)) return false;
+    ctx.label("cov:hetero-differs");
+    ctx.fail("cov:hetero-pairs", what + ": cross-covariance of heterotopic data: " + tmp.fails[0].msg +
+                                 " (the pairs (x,x+h) with z_i(x), z_j(x+h) defined but z_i(x+h) undefined are dropped)");
+    return false;
+  }
+  for (int d = 0; d < ndir; d++)
+    if (!cmpDir(ctx, v, d, O.dirsN[(size_t)d], nvar, key, what)) return false;
   return true;
 }
 
@@ -696,23 +723,7 @@ static void runPt(const PtCase& c, Ctx& ctx)
   std::unique_ptr<Vario> v = runVario(c.dirs, db.get(), c.calc, false, c.api);
   if (!v) { ctx.fail(std::string("vario:") + calcName(c.calc) + ":error", "computation of the experimental variogram reports an error"); return; }
   std::string key = std::string("vario:") + calcName(c.calc);
-  for (int idir = 0; idir < (int)c.dirs.size(); idir++)
-    if (!cmpDir(ctx, *v, idir, O.dirs[(size_t)idir], D.nvar, key, "points")) return;
-  if (O.heteroDiffers)
-  {
-    ctx.label("cov:hetero-differs");
-    for (size_t idir = 0; idir < O.dirs.size(); idir++)
-    {
-      const DirRes& R = O.dirs[idir];
-      for (size_t k = 0; k < R.sw.size(); k++)
-        if (R.sw[k] >= 0 && R.swN[k] != R.sw[k])
-        {
-          ctx.fail("cov:hetero-pairs", fmt("dir %d slot %d: cross-covariance uses weight %.17g, but the pairs (x,x+h) with z_i(x) and z_j(x+h) "
-                                           "defined weigh %.17g (pairs dropped because z_i(x+h) is undefined)", (int)idir, (int)k, R.sw[k], R.swN[k]));
-          return;
-        }
-    }
-  }
+  if (!cmpAll(ctx, *v, O, D.nvar, key, "points")) return;
   ctx.nontrivial(ntRule(D, c.dirs, countPopulated(O)));
   ctx.sig = sigOf(D, c.dirs, c.calc, c.api);
 }
@@ -1081,7 +1092,7 @@ static void runGrid(const GridCase& c, Ctx& ctx)
     double s2 = 0;
     for (int k = 0; k < nd; k++) s2 += (incs[d][(size_t)k] * c.dx[(size_t)k]) * (incs[d][(size_t)k] * c.dx[(size_t)k]);
     dc.dpas = std::sqrt(s2);
-    dc.toldis = 0.02; dc.tolang = 0.5;
+    dc.toldis = 0.002; dc.tolang = 0.05;
     // direction of the increment in the user's system: difference of the coordinates of two nodes
     {
       // grid rotation: node(i) = x0 + R * (i*dx): linear, so any two nodes separated by the increment give it;
@@ -1099,7 +1110,7 @@ static void runGrid(const GridCase& c, Ctx& ctx)
     }
     dirs.push_back(dc);
     int nlt = asym ? 2 * c.npas + 1 : c.npas;
-    Acc A(nvar, nlt);
+    Acc A(nvar, nlt), AN(nvar, nlt);
     std::vector<int> ix((size_t)nd), jx((size_t)nd);
     for (int i = 0; i < n; i++)
     {
@@ -1126,8 +1137,8 @@ static void runGrid(const GridCase& c, Ctx& ctx)
             else
             {
               int sp = c.npas + 1 + ip, sm = c.npas - 1 - ip;
-              if (!isNA(zif) && !isNA(zjt)) A.swN[(size_t)(r * nlt + sp)] += ww;
-              if (!isNA(zit) && !isNA(zjf)) A.swN[(size_t)(r * nlt + sm)] += ww;
+              if (!isNA(zif) && !isNA(zjt)) { A.swN[(size_t)(r * nlt + sp)] += ww; AN.add(r, sp, ww, dist, (LD)zif * zjt); }
+              if (!isNA(zit) && !isNA(zjf)) { A.swN[(size_t)(r * nlt + sm)] += ww; AN.add(r, sm, ww, dist, (LD)zit * zjf); }
               if (isNA(zif) || isNA(zit)) continue; // library convention, see cov:hetero-pairs
               if (!isNA(zjt)) A.add(r, sp, ww, dist, (LD)zif * zjt);
               if (!isNA(zjf)) A.add(r, sm, ww, dist, (LD)zit * zjf);
@@ -1136,6 +1147,8 @@ static void runGrid(const GridCase& c, Ctx& ctx)
       }
     }
     O.dirs.push_back(finish(D, c.calc, c.npas, A, c.calc == COVG ? &wcell : nullptr));
+    if (asym) { AN.swN = AN.sw; O.dirsN.push_back(finish(D, c.calc, c.npas, AN, c.calc == COVG ? &wcell : nullptr)); }
+    else O.dirsN.push_back(O.dirs.back());
     const DirRes& R = O.dirs.back();
     for (size_t k = 0; k < R.sw.size(); k++) if (R.sw[k] >= 0 && R.swN[k] != R.sw[k]) O.heteroDiffers = true;
   }
@@ -1159,26 +1172,34 @@ static void runGrid(const GridCase& c, Ctx& ctx)
   int ncolBefore = g->getColumnNumber();
   std::unique_ptr<Vario> vg(Vario::computeFromDb(*vp, g.get(), calcOf(c.calc)));
   if (!vg) { ctx.fail(key + ":error", "grid algorithm reports an error"); return; }
-  for (int d = 0; d < ndir; d++)
-    if (!cmpDir(ctx, *vg, d, O.dirs[(size_t)d], nvar, key, "grid algorithm")) return;
+  if (!cmpAll(ctx, *vg, O, nvar, key, "grid algorithm")) return;
   if (g->getColumnNumber() != ncolBefore) { ctx.fail(key + ":columns", fmt("the grid has %d columns after the calculation, %d before", g->getColumnNumber(), ncolBefore)); return; }
   // general algorithm on the same nodes
   if (c.calc != COVG)
   {
     bool margin = false;
     for (auto& dc : dirs) forPairs(D, dc, asym, margin, [&](int, int, int, double) {});
+    // the comparison only makes sense when the cone/lag tolerances select exactly the pairs of nodes separated by
+    // multiples of the increment (other nodes can fall inside the tolerances on very anisotropic meshes)
+    bool same = true;
+    if (!margin)
+    {
+      Oracle P = oraclePoints(D, dirs, c.calc);
+      for (int d = 0; d < ndir && same; d++)
+        for (size_t k = 0; k < P.dirs[(size_t)d].sw.size(); k++)
+          if (P.dirs[(size_t)d].sw[k] != O.dirs[(size_t)d].sw[k]) { same = false; break; }
+    }
     if (margin) ctx.label("grid:general-skipped-margin");
+    else if (!same) ctx.label("grid:general-skipped-not-equivalent");
     else
     {
       std::string key2 = std::string("grid-general:") + calcName(c.calc);
       ctx.at(key2);
       std::unique_ptr<Vario> vgen = runVario(dirs, g.get(), c.calc, false, 1);
       if (!vgen) { ctx.fail(key2 + ":error", "general algorithm on the grid reports an error"); return; }
-      for (int d = 0; d < ndir; d++)
-        if (!cmpDir(ctx, *vgen, d, O.dirs[(size_t)d], nvar, key2, "general algorithm on grid nodes")) return;
+      if (!cmpAll(ctx, *vgen, O, nvar, key2, "general algorithm on grid nodes")) return;
     }
   }
-  if (O.heteroDiffers) { ctx.label("cov:hetero-differs"); ctx.fail("cov:hetero-pairs", "cross-covariance drops the pairs (x,x+h) where z_i(x+h) is undefined (grid)"); return; }
   ctx.nontrivial(countPopulated(O) >= 2 && (ndir >= 2 || nvar >= 2 || D.anyNA() || D.hasSel || !c.angles.empty()));
   ctx.sig = Hash().add(sigOf(D, dirs, c.calc, c.multi)).add(c.ndim).add(n).h;
 }
@@ -1412,6 +1433,10 @@ static void runVmap(const VmapCase& c, Ctx& ctx)
   if (map->getSampleNumber() != ncell) { ctx.fail(key + ":size", fmt("map has %d cells, expected %d", map->getSampleNumber(), ncell)); return; }
   int ncolm = map->getColumnNumber();
   double relv = c.fft ? 1e-7 : 1e-10;
+  // the FFT variant obtains the variogram from sums of products z*z: its absolute error scales with max|z|^2
+  double zmax = 0;
+  for (auto z : D.z) if (!isNA(z)) zmax = std::max(zmax, std::fabs(z));
+  double fftAbs = 1e-9 + 1e-11 * zmax * zmax * std::log2((double)D.n + 2.);
   for (int r = 0; r < nvp; r++)
   {
     VectorDouble var = map->getColumnByColIdx(ncolm - 2 * nvp + r), cnt = map->getColumnByColIdx(ncolm - nvp + r);
@@ -1422,7 +1447,7 @@ static void runVmap(const VmapCase& c, Ctx& ctx)
       bool okn = c.fft ? std::fabs(cnt[(size_t)k] - e) <= 1e-6 * (1 + e) : cnt[(size_t)k] == e;
       if (!okn) { ctx.fail(key + ":nb", fmt("variables #%d cell %d/%d: weight %.17g, pairwise definition %.17g", r, k, ncell, cnt[(size_t)k], e)); return; }
       if (!(e > 0)) continue;
-      double ev = (double)(vs[q] / nb[q]), tol = relv * (double)std::max(fabsl(vs[q] / nb[q]), va[q] / nb[q]) + (c.fft ? 1e-9 : 0.);
+      double ev = (double)(vs[q] / nb[q]), tol = relv * (double)std::max(fabsl(vs[q] / nb[q]), va[q] / nb[q]) + (c.fft ? fftAbs : 0.);
       if (!(std::fabs(var[(size_t)k] - ev) <= tol)) { ctx.fail(key + ":var", fmt("variables #%d cell %d/%d: value %.17g, pairwise definition %.17g", r, k, ncell, var[(size_t)k], ev)); return; }
     }
   }
